@@ -25,6 +25,7 @@ class Rec:
         self.unsat = [int(x) for x in self.fields.get("UNSAT", "").split(",") if x]
         self.incoh = [int(x) for x in self.fields.get("INCOH", "").split(",") if x]
         self.dirty = self.fields.get("DIRTY", "0") == "1"
+        self.nc = [tuple(int(y) for y in x.split("/")) for x in self.fields.get("NC", "").split(",") if x]
         self.lean_raw = lean
         self.unmodelled = lean is not None and "UNMODELLED" in lean
         self.lean = None
